@@ -85,11 +85,23 @@ def an_rule(w):
 LIGATURES = "œæ"     # vowels too: the code relies on Terminal.setLemma expanding them (œ -> oe) before elision
 
 
+def model_vowels():
+    """the vowel class the CODE tests (lifted by the translator; last recorded one when the tie is broken): used only
+    where the Python statement is compared with the Lean `settled` op, never by the oracle"""
+    if "model_vowels" not in _P:
+        try:
+            from harness.translate import elision
+            _P["model_vowels"] = elision.extract()["vowelsFr"]
+        except Exception:  # noqa
+            _P["model_vowels"] = VOW
+    return _P["model_vowels"]
+
+
 def vm(w, h, lig=False):
     """begins with a vowel or a mute h (h = the lexicon's answer: "a" aspirated).  `lig`: œ/æ count as vowels (the
     property on the TEXT); without it the class is the one isElidableFr tests (comparison with the model)"""
     c = w[:1].lower()
-    return c != "" and (c in VOW or (lig and c in LIGATURES)) or (c == "h" and h == "m")
+    return c != "" and (c in (VOW + LIGATURES if lig else model_vowels())) or (c == "h" and h == "m")
 
 
 def view(r):
@@ -542,8 +554,12 @@ def oracle_call(ctx, kind, lang, facts, ans, inp):
         return
     if not clean_line(facts, kind == "elide") or stale_input(lang, facts):
         return
+    if kind == "elide" and any(isinstance(f["r"], str) and (view(f["r"]) or ("", "", ""))[1][:1].lower() in tuple(LIGATURES)
+                               for f in facts):
+        return      # a generated realization beginning with a ligature: not reachable through the API (setLemma expands
+                    # œ/æ); the ligature families of (b)/(c) go through the real constructors
     out = after_facts(facts, ans)
-    for sig, det in text_violations(lang, out, facts, lig=(kind != "elide")):
+    for sig, det in text_violations(lang, out, facts, lig=True):
         ctx.fail(sig, inp, "%s: %s -> %s ; %s" % (kind, [f["r"] for f in facts], ans["r"], det))
 
 
